@@ -12,6 +12,7 @@ import re
 
 GRID = 8
 CLOCK = "T"  # canonical TransactTime
+INT_RE = re.compile(r"^-?\d+$")
 TIME_RE = re.compile(r"^\d{8}-\d\d:\d\d:\d\d\.\d{3}$")
 
 LIVE = ("0", "1", "9")
@@ -19,6 +20,13 @@ FINISHED = ("2", "4", "8", "C")
 
 
 def g2f(n: int) -> float:
+    return n / GRID
+
+
+def typed(n: int, as_int: bool):
+    """grid number as a Python float, or as a Python int when asked for and integral"""
+    if as_int and n % GRID == 0:
+        return n // GRID
     return n / GRID
 
 
@@ -147,7 +155,8 @@ class RefExchange:
         if t == "F":
             self.base, self.leaves = "4", 0
             return [self._exec(clord, "4", orig=old)]
-        self.price, self.qty = np, nq
+        # matrix C.3.c: a quantity below what is already filled is amended to CumQty
+        self.price, self.qty = np, max(nq, self.cum)
         self.leaves = max(nq - self.cum, 0)
         if self.leaves == 0:
             self.base = "2"
@@ -247,6 +256,8 @@ def canon_request(m) -> list:
         v = str(v)
         if t == "60":
             v = CLOCK if TIME_RE.match(v) else "BADTIME:" + v
+        if t in ("44", "38") and INT_RE.match(v):
+            v = v + ".0"  # an int-typed attribute / argument prints without '.0'; same number
         tags.append([int(t), v])
     return [str(m.msg_type), tags]
 
@@ -313,20 +324,28 @@ def order_obs(o) -> dict:
 # the link: real order + two FIFO queues + reference exchange
 # ---------------------------------------------------------------------------------------------
 class Link:
-    def __init__(self, root: str, price: int, qty: int, ticker="TICK", side="1", ord_type="2", account="ACC"):
+    def __init__(self, root: str, price: int, qty: int, ticker="TICK", side="1", ord_type="2", account="ACC",
+                 ptype="float", qtype="float", argint=False):
+        """ptype / qtype: Python type of the constructor's price / qty ('int' is honoured when the value is
+        integral); argint: pass integral replace_req arguments as int.  The TYPE is a Python-only dimension:
+        the model's numbers are grid integers whatever the Python type."""
         from asyncfix.protocol.order_single import FIXNewOrderSingle
 
-        self.order = FIXNewOrderSingle(root, ticker, side, g2f(price), g2f(qty), ord_type, account)
+        self.argint = argint
+        self.order = FIXNewOrderSingle(root, ticker, side, typed(price, ptype == "int"), typed(qty, qtype == "int"),
+                                       ord_type, account)
         self.c2e = []   # real FIXMessages
         self.e2c = []   # abstract report dicts
         self.ex = RefExchange()
         self.built = []  # ClOrdIDs of every request built
+        self.last_report = None
 
     def clone(self):
         return copy.deepcopy(self)
 
     def key(self):
         o = order_obs(self.order)
+        o["types"] = type(self.order.price).__name__ + "/" + type(self.order.qty).__name__
         return (tuple(sorted((k, str(v)) for k, v in o.items())),
                 tuple(str(canon_request(m)) for m in self.c2e),
                 tuple(str(sorted((k, str(v)) for k, v in r.items() if k != "17")) for r in self.e2c),
@@ -358,8 +377,8 @@ class Link:
                 elif k == "cCancel":
                     m = o.cancel_req()
                 else:
-                    p = math.nan if a[1] is None else g2f(a[1])
-                    q = math.nan if a[2] is None else g2f(a[2])
+                    p = math.nan if a[1] is None else typed(a[1], self.argint)
+                    q = math.nan if a[2] is None else typed(a[2], self.argint)
                     m = o.replace_req(p, q)
             except BaseException as e:  # noqa
                 return ["raise", exc_kind(e)]
@@ -369,8 +388,10 @@ class Link:
         if k == "cRecv":
             if not self.e2c:
                 return ["empty"]
-            return self.feed(self.e2c.pop(0), style)
+            self.last_report = self.e2c.pop(0)
+            return self.feed(self.last_report, style)
         if k == "feed":
+            self.last_report = a[1]
             return self.feed(a[1], style)
         ex = self.ex
         if k == "xRecv":
